@@ -123,6 +123,16 @@ def wantedBuilds (g : Graph) (a : Run.Args) (files : List Nat) (withManifest : B
 def hasOrderingCycle (g : Graph) (bs : List Nat) : Bool :=
   bs.any (fun b => (ancestors g b).contains b)
 
+/-- The theorems' hypotheses about the graph (`GraphOK`, `DepsOK`), decided on the graph the real
+    loader built: producers are builds that list the file among their outputs; every build is a
+    dependent of each of its ordering inputs. -/
+def graphHypsB (g : Graph) : Bool :=
+  (List.range g.nFiles).all (fun f =>
+    match g.producer f with
+    | some p => decide (p < g.nBuilds) && (g.build p).outs.contains f
+    | none => true) &&
+  (List.range g.nBuilds).all (fun b => (g.build b).ordering.all (fun f => (g.dependents f).contains b))
+
 structure Verdicts where
   startsAfterDeps : Bool
   startsOnce : Bool
@@ -142,6 +152,7 @@ structure Verdicts where
   traceSpec : Bool           -- every event satisfies `okEv` (TraceSpec.lean) w.r.t. its history
   budgetSpec : Bool          -- every start respected the -k budget and preceded any interruption (`budgetTrace`)
   keepsGoing : Bool          -- failure within budget: every wanted step not downstream of a failure is Done
+  graphHyps : Bool           -- the hypotheses of the theorems (GraphOK, DepsOK) hold of the real graph
 
 /-- `result`: the observed outcome token (`ok n`, `fail`, `err ..`, `panic ..`). -/
 def verdicts (g : Graph) (a : Run.Args) (result : List String) (tr : List Ev) : Verdicts :=
@@ -196,7 +207,8 @@ def verdicts (g : Graph) (a : Run.Args) (result : List String) (tr : List Ev) : 
       let exhausted := match a.failuresLeft with | some k => decide (sc.failures ≥ k) | none => false
       isOk || isErr || isPanic || sc.interrupted || exhausted ||
       touched.all (fun b => sc.st b == .done || sc.st b == .failed ||
-        (ancestors g b).any (fun p => sc.st p == .failed)) }
+        (ancestors g b).any (fun p => sc.st p == .failed))
+    graphHyps := graphHypsB g }
 
 def Verdicts.toList (v : Verdicts) : List (String × Bool) :=
   [("startsAfterDeps", v.startsAfterDeps), ("startsOnce", v.startsOnce), ("withinLimits", v.withinLimits),
@@ -205,6 +217,6 @@ def Verdicts.toList (v : Verdicts) : List (String × Bool) :=
    ("closureComplete", v.closureComplete), ("exitOk", v.exitOk), ("summaryOk", v.summaryOk),
    ("decided", v.decided), ("stopsOnInterrupt", v.stopsOnInterrupt),
    ("cycleSound", v.cycleSound), ("cycleComplete", v.cycleComplete), ("traceSpec", v.traceSpec),
-   ("budgetSpec", v.budgetSpec), ("keepsGoing", v.keepsGoing)]
+   ("budgetSpec", v.budgetSpec), ("keepsGoing", v.keepsGoing), ("graphHyps", v.graphHyps)]
 
 end N2V.Mon
